@@ -192,6 +192,7 @@ type rig struct {
 	// what the source directory held: every content (md5) each name ever had, the content
 	// expected to arrive in the end, names the harness changed during the run
 	versions    map[string][]string
+	emptied     map[string]bool   // files the harness truncated to zero length (and has not refilled)
 	damaged     map[string]bool   // DamageFirst: parts that arrived damaged once already
 	wantBytes   map[string]string // C13: content of (unchanging) source files; parts handed to the gate keeper are compared with it
 	byteViol    string
@@ -243,6 +244,7 @@ func newRig(conf rigConf, plan Plan) *rig {
 	r.t0 = time.Now()
 	r.outDir = filepath.Join(r.root, "out")
 	r.versions, r.expect, r.lastContent, r.changed = map[string][]string{}, map[string]string{}, map[string]string{}, map[string]bool{}
+	r.emptied = map[string]bool{}
 	r.sizes = map[string]int64{}
 	for _, f := range conf.Files {
 		vh.WriteFileAt(filepath.Join(r.outDir, f.Name), []byte(f.Data), r.t0.Add(-time.Duration(f.Age)*time.Second))
@@ -702,6 +704,8 @@ func (r *rig) fileChange(alt string) {
 			when = st.ModTime().Add(-2 * time.Hour)
 		}
 		vh.WriteFileAt(p, nb, when)
+	case "truncate": // emptied (a writer opened it with O_TRUNC): an empty file is not eligible
+		vh.WriteFileAt(p, nil, now)
 	case "append":
 		vh.WriteFileAt(p, append(old, []byte("+more")...), now)
 	case "touch":
@@ -713,11 +717,15 @@ func (r *rig) fileChange(alt string) {
 	}
 	r.mu.Lock()
 	r.changed[name] = true
-	if b, err := os.ReadFile(p); err == nil {
+	if b, err := os.ReadFile(p); err == nil && len(b) == 0 {
+		delete(r.expect, name) // nothing of an empty file has to be delivered
+		r.emptied[name] = true
+	} else if err == nil {
 		h := vh.MD5(b)
 		r.versions[name] = append(r.versions[name], h)
 		r.expect[name] = h
 		r.sizes[name+" "+h] = int64(len(b))
+		delete(r.emptied, name)
 	} else {
 		delete(r.expect, name)
 	}
